@@ -334,6 +334,7 @@ fn decode(t: &mut Tape) -> Case {
     }
     p.index_gaps_permille = 200;
     p.nop_placeholders = true;
+    p.function_index = true;
     let g = gen_fn(t, &p);
     let mut spec = g.spec;
     let mut pool = g.pool;
